@@ -103,19 +103,12 @@ Proof.
   - apply in_flat_map in Hr. destruct Hr as [x [Hx Hr]]. rewrite Forall_forall in H.
     eapply H; eauto. eapply (fold_and_in plain); eauto.
 Qed.
-Lemma plain_glob_free : forall l, plain l -> glob_free l.
-Proof.
-  induction l using layer_ind'; simpl; intros Hp; auto.
-  - destruct Hp. auto.
-  - apply (fold_and_intro glob_free). intros x Hx. rewrite Forall_forall in H. apply H; auto.
-    eapply (fold_and_in plain); eauto.
-Qed.
 Lemma plain_shape : forall l, plain l -> shape l.
 Proof.
   induction l using layer_ind'; simpl; intros Hp; auto.
   - destruct Hp. auto.
-  - apply (fold_and_intro (fun x => glob_free x /\ shape x)). intros x Hx. rewrite Forall_forall in H.
-    assert (plain x) by (eapply (fold_and_in plain); eauto). split; auto using plain_glob_free.
+  - apply (fold_and_intro shape). intros x Hx. rewrite Forall_forall in H.
+    apply H; auto. eapply (fold_and_in plain); eauto.
 Qed.
 
 Lemma shaped_ext : forall l a b, (forall k, In k (ids l) -> bit a k = bit b k) -> shaped l a -> shaped l b.
